@@ -21,6 +21,7 @@ import (
 	"strconv"
 	"strings"
 	"testing"
+	"time"
 
 	"github.com/btcsuite/btcd/btcec/v2"
 	"github.com/btcsuite/btcd/btcutil/v2"
@@ -176,6 +177,11 @@ type c19Case struct {
 	defaultCfg bool
 	probSalt   int // 0: constant 1; >0: a fixed table; <0: distinct per pair
 	metaLen    int // length of the payment metadata for the final hop
+
+	// droppedInb lists policy re-announcements (graph-DB stream) that no
+	// longer carry an inbound-fee record: channel, node index, and the
+	// inbound fee (base, rate) the node had announced before.
+	droppedInb [][4]int64
 }
 
 func (cs *c19Case) clone() *c19Case {
@@ -196,6 +202,7 @@ func (cs *c19Case) clone() *c19Case {
 	c.outChans = append([]uint64(nil), cs.outChans...)
 	c.ignNodes = append([]int(nil), cs.ignNodes...)
 	c.ignPairs = append([][2]int(nil), cs.ignPairs...)
+	c.droppedInb = append([][4]int64(nil), cs.droppedInb...)
 	c.bw = make(map[uint64]uint64, len(cs.bw))
 	for k, v := range cs.bw {
 		c.bw[k] = v
@@ -933,6 +940,9 @@ func (c *c19) run(cs *c19Case, g Graph, sess GraphSessionFactory,
 	for _, id := range bwIDs {
 		c.pf("bw %d %d", id, cs.bw[id])
 	}
+	for _, d := range cs.droppedInb {
+		c.pf("droppedinb %d %d %d %d", d[0], d[1], d[2], d[3])
+	}
 
 	hints := &mockBandwidthHints{hints: map[uint64]lnwire.MilliSatoshi{}}
 	for id, v := range cs.bw {
@@ -1521,6 +1531,111 @@ func (c *c19) derive(cs *c19Case, rt *route.Route, chanMut bool) *c19Case {
 	return d
 }
 
+// reannounce models a node re-announcing its policy for one channel of the
+// route just found (a channel_update arriving over gossip): the new policy is
+// written with the graph's own UpdateEdgePolicy (DB and graph cache), and the
+// case's ground truth is updated to the new policy. The update changes the
+// fee/delta and/or the inbound-fee record, which may also be ABSENT in the
+// new update (the node stopped announcing an inbound fee).
+func (c *c19) reannounce(t *testing.T, cs *c19Case, rt *route.Route,
+	gi *testGraphInstance, keys []route.Vertex) *c19Case {
+
+	r := c.rng
+	d := cs.clone()
+	// prefer the incoming channel of a forwarding node, on the side of that
+	// node: this is where its inbound fee is announced.
+	hop := r.Intn(len(rt.Hops))
+	if len(rt.Hops) > 1 && c.chance(0.7) {
+		hop = r.Intn(len(rt.Hops) - 1)
+	}
+	var ch *c19Chan
+	for k := range d.chans {
+		if d.chans[k].id == rt.Hops[hop].ChannelID {
+			ch = &d.chans[k]
+		}
+	}
+	if ch == nil {
+		return d
+	}
+	node := -1
+	for i, k := range keys {
+		if k == route.Vertex(rt.Hops[hop].PubKeyBytes) {
+			node = i
+		}
+	}
+	if c.chance(0.2) || node < 0 {
+		// the other side: the policy used to forward over this hop.
+		if node == ch.a {
+			node = ch.b
+		} else {
+			node = ch.a
+		}
+	}
+	pol := ch.p1
+	if node == ch.b {
+		pol = ch.p2
+	}
+	if pol == nil {
+		return d
+	}
+	ctx := context.Background()
+	_, e1, e2, err := gi.v1Graph.FetchChannelEdgesByID(ctx, ch.id)
+	if err != nil {
+		t.Fatalf("fetch: %v", err)
+	}
+	old := e2
+	if bytes.Compare(keys[node][:], keys[ch.a+ch.b-node][:]) < 0 {
+		old = e1
+	}
+	if old == nil {
+		return d
+	}
+	np := *old
+	hasInb := true
+	switch r.Intn(4) {
+	case 0, 1:
+		// no inbound-fee record any more.
+		if pol.ib != 0 || pol.ir != 0 {
+			d.droppedInb = append(d.droppedInb, [4]int64{int64(ch.id),
+				int64(node), int64(pol.ib), int64(pol.ir)})
+		}
+		pol.ib, pol.ir = 0, 0
+		hasInb = false
+	case 2:
+		pol.ib = int32(int64(c.pick(0, 1, 500)) -
+			int64(c.pick(0, 1, pol.base, 1000)))
+		pol.ir = int32(int64(c.pick(0, 2000)) - int64(c.pick(0, 1, 1000)))
+	case 3:
+		pol.base += uint64(1 + r.Intn(3))
+		pol.delta++
+	}
+	np.FeeBaseMSat = lnwire.MilliSatoshi(pol.base)
+	np.TimeLockDelta = pol.delta
+	np.ExtraOpaqueData = nil
+	np.InboundFee = fn.None[lnwire.Fee]()
+	if hasInb {
+		fee := lnwire.Fee{BaseFee: pol.ib, FeeRate: pol.ir}
+		np.InboundFee = fn.Some(fee)
+		if err := np.ExtraOpaqueData.PackRecords(&fee); err != nil {
+			t.Fatalf("pack: %v", err)
+		}
+		// a later record-less update of this channel side is a new drop.
+		var keep [][4]int64
+		for _, x := range d.droppedInb {
+			if x[0] != int64(ch.id) || x[1] != int64(node) {
+				keep = append(keep, x)
+			}
+		}
+		d.droppedInb = keep
+	}
+	np.LastUpdate = np.LastUpdate.Add(time.Hour)
+	if err := gi.graph.UpdateEdgePolicy(ctx, &np); err != nil {
+		t.Fatalf("update policy: %v", err)
+	}
+
+	return d
+}
+
 // c19Corpus returns fixed cases that run first on every seed.
 func c19Corpus() []*c19Case {
 	line := func(amt uint64, fwd, back *c19Pol) *c19Case {
@@ -1724,7 +1839,11 @@ func TestVerifC19(t *testing.T) {
 				if res.rt == nil {
 					break
 				}
-				cs = c.derive(cs, res.rt, false)
+				if c.chance(0.35) {
+					cs = c.reannounce(t, cs, res.rt, gi, keys)
+				} else {
+					cs = c.derive(cs, res.rt, false)
+				}
 				cs.order = nil
 				for i := range cs.chans {
 					cs.order = append(cs.order, i)
